@@ -31,14 +31,26 @@ def x86_queries(tier):
             qs.append(Query("x86/%s/len%d-%d" % (k, i, i + 7), "harness.C04.adler_x86:adler_query",
                             dict(kernel=k, cases=[[n, o] for n in lens[i:i + 8] for o in ((0, 1) if tier == "quick" else (0, 1, 15, 63))], abstract_from=1000,
                                  z3_timeout_ms=120000), core=(i == 0), family="x86/adler32", weight=300 + 100 * i))
+    # Adler-32 assembly kernels, Z-linear domain: all lengths incl. the deferred-modulo (LIMIT = 5552) schedule
+    for k in ("adler32_sse", "adler32_avx2_4"):
+        small = list(range(0, 131 if tier == "quick" else 700))
+        big = [255, 256, 257, 511, 512, 513, 1023, 1024, 1025, 5544, 5551, 5552, 5553, 5559, 5560, 5561, 6000, 11103, 11104, 11105, 11112]
+        if tier != "quick":
+            big += [16655, 16656, 16657, 22208, 22209, 30000]
+        cases = [[n, o] for n in small for o in (0, 1)] + [[n, 0] for n in big] + [[n, 7] for n in big[:12]]
+        step = 70
+        for i in range(0, len(cases), step):
+            qs.append(Query("x86/%s/lin/c%d" % (k, i // step), "harness.C04.adler_x86:adler_lin_query", dict(kernel=k, cases=cases[i:i + step]),
+                            core=(i == 0), family="x86/adler32_zlinear", weight=sum(c[0] + 100 for c in cases[i:i + step])))
     info = dict(
-        functions_encoded=sorted(KERNELS) + ["adler32_sse", "adler32_avx2_4 (len < 24 quick / < 32 thorough only)"],
+        functions_encoded=sorted(KERNELS) + ["adler32_sse", "adler32_avx2_4 (bit-vector domain: len < 24 quick / < 32 thorough; Z-linear domain: all swept lengths up to 11112 (30000))"],
         bounds={"len": "every 0..%d plus %s at alignment 0; %s at alignment offsets %s" % (full[-1], extra, "0..%d (+ block boundaries)" % off_lens[40] if tier == "quick" else "0..300", offs),
                 "seed": "all bits symbolic", "message": "all bits symbolic"},
         stubs=[],
-        assumptions=["GF(2)-affine domain: every value is an affine form over seed and message bits; any non-linear use of a symbolic value aborts the query",
+        assumptions=["Z-linear domain (Adler kernels): 32-bit lane arithmetic is a ring homomorphic image of exact integer arithmetic; ranges are checked (over all inputs, by interval bounds) wherever a value is interpreted: dividend of div, widening, bit-field split, final halves < 65521",
+                     "GF(2)-affine domain: every value is an affine form over seed and message bits; any non-linear use of a symbolic value aborts the query",
                      "the affine evaluation is cross-checked against native execution on random assignments in every case, and the concrete interpreter against native execution",
                      "CRC definitions of spec/crc_py.py, anchored to published check values (CRC-16/T10-DIF, CRC-32/ISO-HDLC, /BZIP2, /ISCSI, CRC-64/XZ, /WE, /ECMA-182, /GO-ISO, /REDIS, /NVME)",
                      "composition: the bit-serial definition satisfies crc(crc(s,A),B) = crc(s,A||B) by construction (state-passing with the same init/final xor), so kernel = definition for every len <= L gives every split of every message <= L"],
-        outside=["lengths beyond the swept set", "Adler-32 assembly kernels for len >= 32 (vector path: z3 and cvc5, also with --solve-bv-as-int and with the modulo abstracted, undecided in 300 s at len 32) and hence the deferred-modulo schedule", "alignment offsets other than those listed"])
+        outside=["lengths beyond the swept set", "bit-vector (z3/cvc5) decision of the Adler-32 vector path (undecided in 300 s at len 32, also with --solve-bv-as-int and with the modulo abstracted): that path is decided in the Z-linear domain instead (exact integer linear forms + interval bounds + congruence mod 65521)", "alignment offsets other than those listed"])
     return qs, info
